@@ -65,30 +65,34 @@ class Run:
         disp = os.path.join(gen, "Mp4Dispatch.v")
         rc, out, err = sh([sys.executable, os.path.join(VERIF, "tools", "gen_consts.py"), "--dispatch", self.repo, disp])
         if rc != 0:
-            if os.path.exists(disp):
-                os.remove(disp)
+            for stale in (disp, disp + "o", disp[:-2] + ".glob", disp + "os", disp + "ok"):     # the stale compiled file must not satisfy a Require
+                if os.path.exists(stale):
+                    os.remove(stale)
             if self.prop == "C05":
                 self.broken.append(("translator", "gen_consts --dispatch", err.strip()))
         ss = os.path.join(gen, "Mp4ShiftSites.v")
         rc, out, err = sh([sys.executable, os.path.join(VERIF, "tools", "gen_consts.py"), "--shift-sites", self.repo, ss])
         if rc != 0:
-            if os.path.exists(ss):
-                os.remove(ss)
+            for stale in (ss, ss + "o", ss[:-2] + ".glob", ss + "os", ss + "ok"):     # the stale compiled file must not satisfy a Require
+                if os.path.exists(stale):
+                    os.remove(stale)
             if self.prop == "C01":
                 self.broken.append(("translator", "gen_consts --shift-sites", err.strip()))
         bt = os.path.join(gen, "Mp4BoxTypes.v")
         rc, out, err = sh([sys.executable, os.path.join(VERIF, "tools", "gen_consts.py"), "--box-types", self.repo, bt])
         if rc != 0:
-            if os.path.exists(bt):
-                os.remove(bt)
+            for stale in (bt, bt + "o", bt[:-2] + ".glob", bt + "os", bt + "ok"):     # the stale compiled file must not satisfy a Require
+                if os.path.exists(stale):
+                    os.remove(stale)
             if self.prop == "C05":
                 self.broken.append(("translator", "gen_consts --box-types", err.strip()))
         # the known chunk names of webpsan's two trailing-chunk loops (Props/C14k.v): C14's tie
         known = os.path.join(gen, "WebpKnown.v")
         rc, out, err = sh([sys.executable, os.path.join(VERIF, "tools", "gen_consts.py"), "--webp-known", self.repo, known])
         if rc != 0:
-            if os.path.exists(known):
-                os.remove(known)
+            for stale in (known, known + "o", known[:-2] + ".glob", known + "os", known + "ok"):     # the stale compiled file must not satisfy a Require
+                if os.path.exists(stale):
+                    os.remove(stale)
             if self.prop == "C14":
                 self.broken.append(("translator", "gen_consts --webp-known", err.strip()))
         sh(["sh", os.path.join(COQ, "mk_project.sh")])
